@@ -436,6 +436,7 @@ theorem LK.closed : PC.Closed LK where
   lastFlush := fun _ _ h => h.frame rfl rfl
   siteCnt := fun _ _ h => h.frame rfl rfl
   emitInj := fun _ _ _ _ _ h => h.frame rfl rfl
+  note := fun _ h => h.frame rfl rfl
   clock := fun _ _ h => h.frame rfl rfl
   gone := fun _ h => h.frame rfl rfl
   refresh := fun s h => h.back (backSame_refresh s)
